@@ -82,6 +82,64 @@ inline Want eval_h(const std::string& text)
 }
 }
 
+// ---------------------------------------------------------------------------------------------------
+// the fixed-capacity value stack: with a cstring_buffer<N> input and value types that are all default constructible and trivially destructible the
+// parser keeps its values in a cvector instead of a std::vector. TD has no destructor but counts its copies and moves, so a value that is copied
+// on its way over that stack shows.
+namespace hc
+{
+using namespace ctpg; using namespace ctpg::ftors;
+inline thread_local long g_copies = 0, g_moves = 0, g_fresh = 0;
+struct TD
+{
+    int n = 0; int first = 0;
+    constexpr TD() = default;
+    constexpr TD(int n_, int f_) : n(n_), first(f_) {}
+    TD(const TD& o) : n(o.n), first(o.first) { ++g_copies; }
+    TD(TD&& o) noexcept : n(o.n), first(o.first) { ++g_moves; o.n = -1000000; }
+    TD& operator=(const TD& o) { n = o.n; first = o.first; ++g_copies; return *this; }
+    TD& operator=(TD&& o) noexcept { n = o.n; first = o.first; ++g_moves; o.n = -1000000; return *this; }
+};
+static_assert(std::is_trivially_destructible_v<TD> && !std::is_trivially_copyable_v<TD>);
+inline const auto& parser_c()
+{
+    static const auto* p = []
+    {
+        constexpr nterm<TD> sum("sum"), item("item");
+        return new parser(
+            sum, terms('x', '+', '(', ')'), nterms(sum, item),
+            rules(
+                sum(item),
+                sum(sum, '+', item) >= [](TD&& a, char, TD&& b) { TD r(std::move(a)); r.n += b.n; return r; },
+                item('x') >= [](char) { return TD(1, int(++g_fresh)); },
+                item('(', sum, ')') >= _e2
+            ));
+    }();
+    return *p;
+}
+struct Got { bool has = false; int n = 0; int first = 0; bool threw = false; std::string exc; };
+template<size_t N> Got run_n(const std::string& text)
+{
+    char arr[N + 1]; for (size_t i = 0; i < N; ++i) arr[i] = text[i]; arr[N] = 0;
+    Got g; std::ostringstream os;
+    try { auto r = parser_c().parse(parse_options{}, ctpg::buffers::cstring_buffer<N + 1>(arr), os); if (r.has_value()) { g.has = true; g.n = r.value().n; g.first = r.value().first; } }
+    catch (const std::exception& e) { g.threw = true; g.exc = e.what(); }
+    return g;
+}
+template<size_t N = 1> Got run_c(const std::string& text)
+{
+    if constexpr (N > 24) { (void)text; return Got{}; }
+    else { if (text.size() == N) return run_n<N>(text); return run_c<N + 1>(text); }
+}
+// independent: blanks removed; sum = item ('+' item)*, item = x | '(' sum ')'; value = number of x
+inline bool eval_c(const std::string& t, size_t& p, int& n)
+{
+    auto item = [&](auto& self_sum) -> bool { if (p < t.size() && t[p] == 'x') { ++p; ++n; return true; } if (p < t.size() && t[p] == '(') { ++p; if (!self_sum(self_sum)) return false; if (p < t.size() && t[p] == ')') { ++p; return true; } return false; } return false; };
+    auto sum = [&](auto& self) -> bool { if (!item(self)) return false; while (p < t.size() && t[p] == '+') { ++p; if (!item(self)) return false; } return true; };
+    return sum(sum);
+}
+}
+
 struct P_C14h
 {
     struct Case { std::vector<std::string> inputs; };
@@ -140,6 +198,21 @@ struct P_C14h
     static Verdict eval(const Case& c, Stats& st)
     {
         size_t interesting = 0; bool any_recovery = false, any_deep = false, any_push = false;
+        // the fixed-capacity value stack (cstring_buffer<N>, trivially destructible values): a text derived from the case's bytes
+        for (size_t k = 0; k < c.inputs.size(); ++k)
+        {
+            std::string t; for (char ch : c.inputs[k]) { if (ch == 'x' || ch == '(' || ch == ')') t += ch; else if (ch == ',' || ch == '+') t += '+'; if (t.size() >= 24) break; }
+            if (t.empty()) continue;
+            size_t p = 0; int n = 0; const bool ok = hc::eval_c(t, p, n) && p == t.size();
+            hc::g_copies = hc::g_moves = hc::g_fresh = 0;
+            hc::Got g = hc::run_c<1>(t);
+            st.sub_evaluations += st.counting ? 1 : 0;
+            vj::Value d = vj::Value::object(); d.set("input_index", (unsigned long long)k); d.set("cstring_text", t); d.set("copies", (long long)hc::g_copies); d.set("moves", (long long)hc::g_moves);
+            if (g.threw) { d.set("exception", g.exc); return Verdict::fail("parse through cstring_buffer threw", d); }
+            if (g.has != ok || (ok && (g.n != n || g.first != 1))) return Verdict::fail("parse through cstring_buffer (fixed-capacity value stack): wrong result", d);
+            if (hc::g_copies != 0) return Verdict::fail("values were copied on the fixed-capacity value stack (cstring_buffer input, trivially destructible value types): every shift and reduce must move", d);
+            if (ok && n >= 3) st.label("cstring-fixed-stack-parse");
+        }
         for (size_t k = 0; k < c.inputs.size(); ++k)
         {
             const std::string& text = c.inputs[k];
